@@ -1,6 +1,7 @@
 """C15 -- every valid annotation yields working routines (Terms.tla extended grammar, Member_Trace.tla "build")."""
 from __future__ import annotations
 
+import collections
 import json
 import random
 import warnings
@@ -10,6 +11,10 @@ from ..core import Ctx, Outcome, Violation
 from ..terms import Deadline, clear_typelib_caches, with_deadline, vkey
 
 PASS = {"Any", "object", "T_free", "Callable", "CallableBare", "CallableEll", "type[int]", "typing.Type"}
+
+
+# classes without hints of the extended grammar: the members a mapping input can name
+NOHINT_MEMBERS = {"NoHints": ["a", "b"], "VarHints": ["host", "port"], "KwOnly": ["a", "b"]}
 
 
 class Sentinel:
@@ -34,6 +39,16 @@ def probe_value(T, s, depth=0):
     k = T["k"]
     if k == "ext" and T["n"] in PASS:
         return s, (lambda r: r)
+    if k == "ext" and T["n"] in NOHINT_MEMBERS:
+        # a class without hints: every constructor parameter that can be given by name is a pass-through member
+        names = NOHINT_MEMBERS[T["n"]]
+        marks = {n: Sentinel() for n in names}
+        marks[names[-1]] = s
+
+        def find_all(r):
+            get = (lambda n: r[n]) if isinstance(r, dict) else (lambda n: getattr(r, n))
+            return s if all(get(n) is marks[n] for n in names) else None
+        return dict(marks), find_all
     if depth > 3:
         return None
     if k == "coll":
@@ -103,8 +118,10 @@ def observe(T, env):
     def shown(r):
         if isinstance(r, Sentinel):
             return "sentinel"
-        if isinstance(r, (list, tuple)):
+        if isinstance(r, (list, tuple, collections.deque)):
             return type(r).__name__ + "[" + ",".join(shown(x) for x in list(r)[:4]) + "]"
+        if isinstance(r, (set, frozenset)):
+            return type(r).__name__ + "[" + ",".join(sorted(shown(x) for x in r)[:4]) + "]"
         if isinstance(r, dict):
             return "{" + ",".join(f"{k}:{shown(v)}" for k, v in list(r.items())[:4]) + "}"
         if hasattr(r, "__dict__") and type(r).__module__.startswith("verif_"):
@@ -176,9 +193,15 @@ def run(ctx: Ctx) -> Outcome:
         viol.append(Violation(clause=r["clause"], case={"T": T},
                               fields={"root": T["k"], "ext": exts[:3]},
                               msg=f"{json.dumps(T)[:200]} {detail}"))
+    # the routine factory itself: spec/Factory.tla and the routine tables the real factory builds (shared with C05;
+    # here with direct class-typed fields in the quick tier as well)
+    from . import c05
+    rviol, rcov, rdrift, rn = c05.routing(ctx, direct_small=ctx.quick)
+    viol += rviol
     probed = sum(1 for T, _ in meta if probe_value(T, object()) is not None)
-    cov = {"states": model.distinct, "transitions": model.generated, "exhaustive": True,
-           "traces_validated_against_impl": len(events), "evaluations": len(events),
+    cov = {"states": model.distinct + rcov["factory_model_states"], "transitions": model.generated + rcov["factory_model_transitions"],
+           "exhaustive": True, **rcov,
+           "traces_validated_against_impl": len(events) + rn, "evaluations": len(events) + rn,
            "distinct_nontrivial": len({json.dumps(T, sort_keys=True) for T, _ in meta if T["k"] not in ("prim", "ext")}),
            "extended_annotations": len(types), "universe_annotations": len(utypes), "passthrough_probed": probed,
            "rule": "every annotation of the extended grammar emitted by TLC (28 extension leaves: Any, object, bare builtin and typing "
@@ -188,13 +211,19 @@ def run(ctx: Ctx) -> Outcome:
                    "built under a watchdog, a sentinel object is sent through every reachable pass-through position, and the routine "
                    "is rebuilt memoised and after clearing all caches; non-trivial = composite annotation",
            "samples": [{"T": meta[len(types) // 2][0], "event": events[len(types) // 2]}]}
-    return Outcome(level="model_checking", coverage=cov, violations=viol,
+    cov["rule"] += ("; routine factory: spec/Factory.tla model-checked (graph walk, context writes, member resolution, proxies; four wrong "
+                    "variants must fail), its (topology, root) cases materialised and the real unmarshaller / marshaller tables judged by "
+                    "Factory_Trace.tla (a resolvable member never gets a no-op routine, the root routine is real, proxies denote types)")
+    return Outcome(level="model_checking", coverage=cov, violations=viol, impl_drift=rdrift,
                    assumptions=["pass-through is probed where the harness knows how to reach the position (list/tuple/deque/dict value/"
                                 "first tuple member/Optional/class field)"])
 
 
 def replay(ctx: Ctx, rep: dict) -> Outcome:
     warnings.simplefilter("ignore")
+    if rep["case"].get("routing"):
+        from . import c05
+        return c05.replay(ctx, rep)
     defs, _, _ = vs.universe("quick")
     env = vs.make_env(defs)
     ev, detail = observe(rep["case"]["T"], env)
